@@ -298,6 +298,14 @@ class CSSImportRule(cssrule.CSSRule):
 
             # all possible exceptions are ignored
             try:
+                # a sheet importing itself (directly or through others)
+                sheet = self.parentStyleSheet
+                while sheet is not None:
+                    if sheet.href == fullhref:
+                        raise OSError('Import cycle.')
+                    owner = sheet.ownerRule
+                    sheet = owner.parentStyleSheet if owner else None
+
                 usedEncoding, enctype, cssText = self.parentStyleSheet._resolveImport(
                     fullhref
                 )
